@@ -53,8 +53,11 @@ def selftest(prop, spec, k=60, seed=7):
     # sample across the file so that every event family is hit
     picks = sorted(rnd.sample(range(n), min(k, n)))
     cor = {}
+    skip = set(spec.get("selftest_skip_ops", []))
     for i in picks:
         e = json.loads(lines[i])
+        if e.get("op") in skip:
+            continue          # events whose single outcome the property deliberately leaves open (see DESIGN)
         what = corrupt(e, rnd)
         if what:
             lines[i] = json.dumps(e, separators=(",", ":"))
